@@ -1231,6 +1231,245 @@ def stress(rounds, viol, deadline):
     return done
 
 
+# ----------------------------------------------------------------------------- stateful definitions
+
+# Concurrent evaluations of ONE cached dataset whose DEFINITION (or something its definition reaches through the
+# graph: a default argument, a bound positional / keyword argument, a pipeline step) is an object that keeps
+# scratch state on itself while it runs.  Every evaluation is handed what the graph holds as its own private copy
+# (a solo evaluation of options o returns ROWS(o), however many evaluations came before); the threads evaluate at
+# the same moment (a barrier INSIDE the body: every thread has written its scratch rows before any thread reads
+# them back), each with options of its own, so each must still get ROWS(own options) -- also when the same
+# options are asked again afterwards (what the concurrent evaluations left in the cache).
+STATEFUL_DEFS = ["instance", "bound-method", "partial-pos", "partial-kw", "default-list", "default-dict",
+                 "default-obj", "default-callable-obj", "class-attr-instance", "step-method", "step-instance"]
+STATEFUL_WRAPS = ["dataset", "dataset-cache", "cached", "overload", "dependency"]
+STATEFUL_SYNC = 3.0          # seconds: the barrier inside the body (broken -> the body just goes on)
+
+
+def stateful_rows(defkind, o):
+    x, y = o // 10, o % 10
+    if defkind.startswith("step"):
+        return [x]
+    return [10 * x + i for i in range(y)]
+
+
+def build_stateful(defkind, wrap, sync):
+    """the shared evaluatable of one run (labrea public API only)"""
+    import functools
+    B = _base()
+    Option, dataset, cached, MemoryCache = B["Option"], B["dataset"], B["cached"], B["MemoryCache"]
+
+    class Scratch:                       # a plain stateful object
+        def __init__(self):
+            self.rows = []
+
+    class Builder(Scratch):              # a stateful callable instance
+        def __call__(self, x=Option("X"), y=Option("Y")):
+            for i in range(y):
+                self.rows.append(10 * x + i)
+            sync()
+            return list(self.rows)
+
+        def build(self, x=Option("X"), y=Option("Y")):
+            return self(x, y)
+
+        def step(self, x):
+            self.rows.append(x)
+            sync()
+            return list(self.rows)
+
+    class StepInstance(Scratch):
+        def __call__(self, x):
+            self.rows.append(x)
+            sync()
+            return list(self.rows)
+
+    def fill(rows, x, y):
+        for i in range(y):
+            rows.append(10 * x + i)
+        sync()
+        return list(rows)
+
+    def with_scratch(scratch, x=Option("X"), y=Option("Y")):
+        return fill(scratch, x, y)
+
+    def default_list(x=Option("X"), y=Option("Y"), acc=[]):      # noqa: B006  (labrea wraps the default in a Value)
+        return fill(acc, x, y)
+
+    def kw_scratch(x=Option("X"), y=Option("Y"), acc=None):
+        return fill(acc, x, y)
+
+    def default_dict(x=Option("X"), y=Option("Y"), acc={"rows": [], "meta": {"n": 0}}):      # noqa: B006
+        acc["meta"]["n"] += y
+        out = fill(acc["rows"], x, y)
+        return out if acc["meta"]["n"] == y else out + ["meta", acc["meta"]["n"]]
+
+    def default_obj(x=Option("X"), y=Option("Y"), acc=Scratch()):      # noqa: B008
+        return fill(acc.rows, x, y)
+
+    def default_callable_obj(x=Option("X"), y=Option("Y"), acc=Builder()):      # noqa: B008
+        return fill(acc.rows, x, y)
+
+    class Holder:                         # the definition is a method of an instance that is itself held by a class
+        worker = Builder()
+
+    step = None
+    if defkind == "instance":
+        fn = Builder()
+    elif defkind == "bound-method":
+        fn = Builder().build
+    elif defkind == "partial-pos":
+        fn = functools.partial(with_scratch, [])
+    elif defkind == "partial-kw":
+        fn = functools.partial(kw_scratch, acc=[])
+    elif defkind == "default-list":
+        fn = default_list
+    elif defkind == "default-dict":
+        fn = default_dict
+    elif defkind == "default-obj":
+        fn = default_obj
+    elif defkind == "default-callable-obj":
+        fn = default_callable_obj
+    elif defkind == "class-attr-instance":
+        fn = Holder.worker.build
+    elif defkind == "step-method":
+        fn, step = None, Builder().step
+    elif defkind == "step-instance":
+        fn, step = None, StepInstance()
+    else:
+        raise AssertionError(defkind)
+    if step is not None:
+        node = Option("X").apply(step) if wrap != "dataset-cache" else (Option("X") >> step)
+        if wrap in ("dataset", "dataset-cache", "overload"):
+            def over(v=node):
+                return v
+            over.__name__ = over.__qualname__ = "verif_stateful_over_step"
+            return dataset(over) if wrap == "dataset" else dataset(cache=MemoryCache())(over)
+        if wrap == "dependency":
+            inner = cached(node, MemoryCache())
+
+            def outer(v=inner):
+                return v
+            outer.__name__ = outer.__qualname__ = "verif_stateful_outer"
+            return dataset(outer)
+        return cached(node, MemoryCache())
+    if wrap == "dataset":
+        return dataset(fn)
+    if wrap == "dataset-cache":
+        return dataset(cache=MemoryCache())(fn)
+    if wrap == "cached":
+        from labrea.application import FunctionApplication
+        return cached(FunctionApplication.lift(fn), MemoryCache())
+    if wrap == "overload":
+        def base():
+            return ["base"]
+        base.__name__ = base.__qualname__ = "verif_stateful_base"
+        ds = dataset(dispatch=Option("IMPL", "base"))(base)
+        ds.overload("stateful")(fn)
+        return ds
+    if wrap == "dependency":
+        inner = dataset(fn)
+
+        def outer(v=inner):
+            return v
+        outer.__name__ = outer.__qualname__ = "verif_stateful_outer"
+        return dataset(outer)
+    raise AssertionError(wrap)
+
+
+def run_stateful(case):
+    """case: defkind, wrap, opts (one per thread, pairwise different X), rounds.  Round 0: all threads evaluate their own
+    options at the same moment on the cold cache; round 1: every thread asks for the options ANOTHER thread had in
+    round 0 (served from the cache); round 2: fresh options (X + 5), again at the same moment.
+    Returns ({tid: [(options, value)]}, errors)."""
+    opts = list(case["opts"])
+    n = len(opts)
+    inner = threading.Barrier(n)
+    outer = threading.Barrier(n)
+
+    def sync():
+        try:
+            inner.wait(timeout=STATEFUL_SYNC)
+        except threading.BrokenBarrierError:
+            pass
+
+    ev = build_stateful(case["defkind"], case["wrap"], sync)
+    extra = {"IMPL": "stateful"} if case["wrap"] == "overload" else {}
+    got = {t: [] for t in range(n)}
+    errors = []
+
+    def plan(t):
+        out = []
+        for r in range(case.get("rounds", 3)):
+            if r % 3 == 0:
+                out.append(opts[t] + 50 * (r // 3))
+            elif r % 3 == 1:
+                out.append(opts[(t + 1) % n] + 50 * (r // 3))
+            else:
+                out.append(opts[t] + 50 * (r // 3) + 50)
+        return out
+
+    def work(t):
+        for o in plan(t):
+            try:
+                outer.wait(timeout=WAIT)
+            except threading.BrokenBarrierError:
+                pass
+            try:
+                got[t].append((o, ev.evaluate(dict(opts_of(o), **extra))))
+            except Exception as e:  # noqa: BLE001
+                got[t].append((o, "ERR"))
+                errors.append((t, o, type(e).__name__))
+                inner.abort()
+    ths = [threading.Thread(target=work, args=(t,), daemon=True, name=f"c15-stateful-{t}") for t in range(n)]
+    for th in ths:
+        th.start()
+    for th in ths:
+        th.join(timeout=WAIT * 3)
+    if any(th.is_alive() for th in ths):
+        raise Hang(f"stateful-definition run did not finish: {case}")
+    return got, errors
+
+
+def oracle_stateful(case, got, errors):
+    bad = []
+    for t in sorted(got):
+        for o, v in got[t]:
+            want = stateful_rows(case["defkind"], o)
+            if v != want:
+                bad.append(f"cached evaluation: thread {t} evaluated options {opts_of(o)} and got {v}, the value of its own "
+                           f"options is {want}")
+    if errors:
+        bad.append(f"operations raised: {errors[:3]}")
+    return bad
+
+
+def gen_stateful(rng, quick):
+    cases = []
+    for d in STATEFUL_DEFS:
+        for w in STATEFUL_WRAPS:
+            for n in ((2, 3) if not quick else (rng.choice([2, 3]),)):
+                xs = rng.sample([1, 2, 3, 4], n)
+                cases.append(dict(kind="stateful", defkind=d, wrap=w, opts=[10 * x + rng.randint(1, 3) for x in xs], rounds=3))
+    return cases
+
+
+def do_stateful(C, case):
+    family = f"stateful/{case['defkind']}/{case['wrap']}"
+    C.evals += 1
+    C.dist["stateful_runs"] = C.dist.get("stateful_runs", 0) + 1
+    C.dist["families"]["stateful/" + case["defkind"]] = C.dist["families"].get("stateful/" + case["defkind"], 0) + 1
+    try:
+        got, errors = run_stateful(case)
+    except Hang as e:
+        C.hangs.append(dict(case, error=str(e)))
+        return
+    bad = oracle_stateful(case, got, errors)
+    if bad:
+        C.add_violation(family, bad, dict(case, observed={str(t): v for t, v in got.items()}))
+    C.distinct.add(lib.stable_hash(["stateful", case["defkind"], case["wrap"], case["opts"]]))
+
+
 # ----------------------------------------------------------------------------- the check
 
 class Collector:
@@ -1391,6 +1630,11 @@ def run(ctx):
         progs = gen_progs(rng, rng.choice([2, 3, 3]), rng.choice([4, 6, 8]), kinds)
         C.count_ops(progs)
         do_op_run(C, "op/random-" + "+".join(kinds), progs, random_schedule(rng, progs), use_dataset=(i % 5 == 0))
+    # 3b. definitions that keep scratch state on themselves, evaluated by 2-3 threads at the same moment (oracle only: the
+    # model's EvalCached has no notion of what the definition is made of)
+    srng = random.Random(ctx.seed * 131 + 15)
+    for case in gen_stateful(srng, quick):
+        do_stateful(C, case)
     # 4. line level (and opcode level)
     deadline = t0 + (110 if quick else 1300)
     hard = broke  # an obligation broke: search harder
@@ -1425,7 +1669,9 @@ def run(ctx):
     C.evals += srounds
     # 6. model on the same programs + schedules
     exprs = list(C.cases)
-    model_lines = ctx.coq_eval("Cases_C15", ["Model.Threads", "Model.ThreadsRun"], COQ_PRELUDE, exprs, shard=250) if exprs else []
+    # (thorough tier: at most 8 coqc processes at a time, each holds ~0.45 GB once the model is loaded)
+    model_lines = ctx.coq_eval("Cases_C15", ["Model.Threads", "Model.ThreadsRun"], COQ_PRELUDE, exprs, shard=250,
+                               **({} if quick else {"jobs": 8})) if exprs else []
     nm = 0
     for e, ml in zip(exprs, model_lines):
         obs, payload = C.cases[e]
@@ -1466,6 +1712,10 @@ def run(ctx):
             "equal fingerprints imply equal values (hypothesis of C15_concurrent_eval_own_value; holds for datasets whose value is a "
             "function of the options they read; conflating fingerprints belong to C03)",
             "programs are well nested (every Exit has a matching Enter)",
+            "stateful-definition runs (a callable instance, a bound method of a stateful object, functools.partial over a mutable "
+            "argument, mutable / stateful default arguments, stateful pipeline steps, as a dataset, a cached application, an overload, "
+            "a dependency): 2-3 free-running threads meet at a barrier inside the body; oracle only (the value of options o is the "
+            "rows of o alone, as in a solo evaluation), outside Model/Threads.v",
         ],
         "trusted_base": [
             "fail-closed ast scan (harness/props/c15.py scan_atomicity) producing the atomicity flags",
@@ -1487,6 +1737,10 @@ def replay(ctx, payload):
             return bool(bad), {"flags": scan["flags"], "failing_obligations": sorted(bad)}
         except ScanError as e:
             return True, {"scan_error": str(e)}
+    if v.get("kind") == "stateful":
+        got, errors = run_stateful(v)
+        bad = oracle_stateful(v, got, errors)
+        return bool(bad), {"oracle": bad[:4], "observed": {str(t): x for t, x in got.items()}}
     if v.get("kind") == "stress":
         sv = []
         n = stress(2000, sv, time.time() + 120)
